@@ -206,3 +206,145 @@ func (c *Ctx) derivedPeriods() {
 	run.Count("derived_periods", n)
 	run.Floor("derived_periods", 3)
 }
+
+// trimaPeriods: TRIMA's two SMA periods are computed by an unexported method from the one period
+// the user gives: (P/2, P/2+1) for an even P and ((P+1)/2, (P+1)/2) for an odd one (documented).
+// The calculus treats the two results as free configuration; here the method is read as a
+// decision table and its results are evaluated for P = 1..12.
+func (c *Ctx) trimaPeriods() {
+	run := c.Run
+	tr := c.fn("trend", "Trima", "Compute")
+	if tr == nil {
+		return
+	}
+	info := tr.Pkg.TypesInfo
+	var calc *ast.FuncDecl
+	ast.Inspect(tr.Decl.Body, func(n ast.Node) bool {
+		call, ok := n.(*ast.CallExpr)
+		if !ok {
+			return true
+		}
+		if fn := callee(info, call); fn != nil && !fn.Exported() {
+			if d := c.P.Decls[fn.Origin()]; d != nil && d.Decl.Recv != nil && d.Decl.Type.Results != nil && d.Decl.Type.Results.NumFields() == 2 {
+				calc = d.Decl
+			}
+		}
+		return true
+	})
+	site := "trend.(*Trima).calculatePeriods"
+	if calc == nil {
+		run.Oblige(false)
+		c.violate("formula/derived-period", site, "not found", tr.Decl.Pos(), "the method that derives TRIMA's two SMA periods could not be located (undecided, fails closed)")
+		return
+	}
+	m := dtab.FromFuncDecl(info, calc)
+	recv := ""
+	if len(calc.Recv.List) == 1 && len(calc.Recv.List[0].Names) == 1 {
+		recv = calc.Recv.List[0].Names[0].Name
+	}
+	why := ""
+	if len(m.Unsupported) > 0 || len(m.State) > 0 || recv == "" {
+		why = fmt.Sprintf("the method is not a loop-free function of the period (undecided, fails closed): %v", m.Unsupported)
+	}
+	n := 0
+	for p := int64(1); p <= 12 && why == ""; p++ {
+		env := map[string]sym.Expr{recv + ".Period": sym.N(p)}
+		ps, ok := m.Select(env, modOracle(env))
+		if !ok || len(ps) != 1 || len(ps[0].Ret) != 2 {
+			why = fmt.Sprintf("the periods for Period=%d are undecided (fails closed)", p)
+			break
+		}
+		w1, w2 := p/2, p/2+1
+		if p%2 != 0 {
+			w1, w2 = (p+1)/2, (p+1)/2
+		}
+		g1, ok1 := evalIntTerm(ps[0].Ret[0], env)
+		g2, ok2 := evalIntTerm(ps[0].Ret[1], env)
+		n++
+		if !ok1 || !ok2 {
+			why = fmt.Sprintf("the periods for Period=%d are undecided (fails closed)", p)
+		} else if g1 != w1 || g2 != w2 {
+			why = fmt.Sprintf("for Period=%d the two SMA periods are (%d, %d), documented (%d, %d)", p, g1, g2, w1, w2)
+		}
+	}
+	run.Count("trima_periods_evaluated", n)
+	run.Oblige(why == "")
+	if why != "" {
+		c.violate("formula/derived-period", site, short(why, 80), calc.Pos(), why+": TRIMA is computed over the wrong windows")
+	}
+}
+
+// evalIntTerm evaluates an integer term (with Go's truncating division and remainder).
+func evalIntTerm(e sym.Expr, env map[string]sym.Expr) (int64, bool) {
+	switch x := e.(type) {
+	case sym.Num:
+		if x.V.IsInt() {
+			return x.V.Num().Int64(), true
+		}
+	case sym.Var:
+		if v, ok := env[x.Name]; ok {
+			if _, same := v.(sym.Var); !same {
+				return evalIntTerm(v, env)
+			}
+		}
+	case sym.Neg:
+		v, ok := evalIntTerm(x.X, env)
+		return -v, ok
+	case sym.Bin:
+		l, ok1 := evalIntTerm(x.L, env)
+		r, ok2 := evalIntTerm(x.R, env)
+		if !ok1 || !ok2 {
+			return 0, false
+		}
+		switch x.Op {
+		case "+":
+			return l + r, true
+		case "-":
+			return l - r, true
+		case "*":
+			return l * r, true
+		case "/":
+			if r == 0 {
+				return 0, false
+			}
+			return l / r, true
+		}
+	case sym.Call:
+		if (x.Fn == "mod" || x.Fn == "%") && len(x.Args) == 2 {
+			l, ok1 := evalIntTerm(x.Args[0], env)
+			r, ok2 := evalIntTerm(x.Args[1], env)
+			if ok1 && ok2 && r != 0 {
+				return l % r, true
+			}
+		}
+	case sym.Ite:
+		return 0, false
+	}
+	return 0, false
+}
+
+// modOracle decides comparisons between integer terms under env.
+func modOracle(env map[string]sym.Expr) dtab.Oracle {
+	return func(cm sym.Cmp) (bool, bool) {
+		l, ok1 := evalIntTerm(cm.L, env)
+		r, ok2 := evalIntTerm(cm.R, env)
+		if !ok1 || !ok2 {
+			return false, false
+		}
+		switch cm.Op {
+		case "==":
+			return l == r, true
+		case "!=":
+			return l != r, true
+		case "<":
+			return l < r, true
+		case "<=":
+			return l <= r, true
+		case ">":
+			return l > r, true
+		case ">=":
+			return l >= r, true
+		}
+		return false, false
+	}
+}
